@@ -180,6 +180,10 @@ class CEMILData(CEMIData):
         """Serialize to KNX/IP raw data."""
         tpdu: bytes | bytearray
         if self.tpci.control:
+            if self.payload is not None:
+                raise ConversionError(
+                    f"Control TPDU {self.tpci} can not carry a payload: {self.payload}"
+                )
             tpdu = self.tpci.to_knx().to_bytes(1, "big")
             npdu_len = 0
         else:
